@@ -53,10 +53,11 @@ func runBounds(r *Run, cfg boundsConfig) {
 		for _, st := range sites {
 			nsites++
 			construct := fi.Name() + "#" + st.Desc
+			ekey := fi.Name() + "#" + alphaStr(fi.Pkg.TypesInfo, st.Node) // exception key: locals α-renamed
 			if len(st.Goals) == 0 {
 				// not linear
-				if why, ok := cfg.exc[construct]; ok {
-					cfg.usedExc[construct] = true
+				if why, ok := cfg.exc[ekey]; ok {
+					cfg.usedExc[ekey] = true
 					r.Ob(cfg.rule, construct, st.Node.Pos()).OK("reviewed exception: %s", why)
 				} else {
 					r.Ob(cfg.rule, construct, st.Node.Pos()).Unknown("index expression is not linear in tracked terms (%s); needs review", strings.Join(st.GoalDs, "; "))
@@ -78,8 +79,8 @@ func runBounds(r *Run, cfg boundsConfig) {
 				r.Ob(cfg.rule, construct, st.Node.Pos()).OK("%s", strings.Join(facts, "; "))
 				continue
 			}
-			if why, ok := cfg.exc[construct]; ok {
-				cfg.usedExc[construct] = true
+			if why, ok := cfg.exc[ekey]; ok {
+				cfg.usedExc[ekey] = true
 				r.Ob(cfg.rule, construct, st.Node.Pos()).OK("reviewed exception: %s", why)
 				continue
 			}
@@ -306,14 +307,16 @@ func (ba *boundsAnalysis) lift1(r *Run, cfg *boundsConfig, fi *FuncInfo, site as
 		for _, c := range callSites {
 			ncalls++
 			ckey := caller.Name() + "#call:" + exprStr(c)
-			ord[ckey]++
-			if ord[ckey] > 1 {
-				ckey = fmt.Sprintf("%s~%d", ckey, ord[ckey])
+			ekey := caller.Name() + "#call:" + alphaStr(info, c)
+			ord[ekey]++
+			if ord[ekey] > 1 {
+				ckey = fmt.Sprintf("%s~%d", ckey, ord[ekey])
+				ekey = fmt.Sprintf("%s~%d", ekey, ord[ekey])
 			}
 			inst, ok := cbf.instantiate(bf, pre, c)
 			if !ok {
-				if why, has := cfg.exc[ckey]; has {
-					cfg.usedExc[ckey] = true
+				if why, has := cfg.exc[ekey]; has {
+					cfg.usedExc[ekey] = true
 					notes = append(notes, fmt.Sprintf("%s: reviewed exception: %s", ckey, why))
 					continue
 				}
@@ -329,8 +332,8 @@ func (ba *boundsAnalysis) lift1(r *Run, cfg *boundsConfig, fi *FuncInfo, site as
 				notes = append(notes, fmt.Sprintf("%s ⊢ %s ≤ 0 ⇐ %s", ckey, prettyLin(inst), fact))
 				continue
 			}
-			if why, has := cfg.exc[ckey]; has {
-				cfg.usedExc[ckey] = true
+			if why, has := cfg.exc[ekey]; has {
+				cfg.usedExc[ekey] = true
 				notes = append(notes, fmt.Sprintf("%s: reviewed exception: %s", ckey, why))
 				continue
 			}
